@@ -666,6 +666,23 @@ static int op_window_cycle(ctx_t *c, const long *a) { /* M r0 c0w r1 c1 : create
   L->mzd_free(W);
   return OP_OK;
 }
+static int op_window_burst(ctx_t *c, const long *a) { /* M count : `count` simultaneously live windows on M (header pool growth / fallback), then all freed */
+  mzd_t *M = MAT(a[0]);
+  REQ(M && M->nrows > 0 && M->ncols > 0 && a[1] >= 1 && a[1] <= 1200);
+  mzd_t **W = (mzd_t **)malloc(sizeof(mzd_t *) * (size_t)a[1]);
+  uint64_t h = FNV0;
+  for (long i = 0; i < a[1]; i++) {
+    rci_t r0 = (rci_t)(i % M->nrows);
+    W[i] = L->mzd_init_window(M, r0, 0, M->nrows, M->ncols);
+  }
+  for (long i = 0; i < a[1]; i += 7) h = mat_hash(W[i], h);
+  push_ret(c, (long)(h & 0x7fffffff));
+  /* free in an order that is neither LIFO nor FIFO */
+  for (long i = 0; i < a[1]; i += 2) L->mzd_free(W[i]);
+  for (long i = 1; i < a[1]; i += 2) L->mzd_free(W[i]);
+  free(W);
+  return OP_OK;
+}
 #undef L
 
 const opdesc_t op_table[] = {
@@ -728,6 +745,7 @@ const opdesc_t op_table[] = {
   { "jcf_file", op_jcf_file, 5, "file m n nnz seed" },
   { "reinit", op_reinit, 0, "" },
   { "window_cycle", op_window_cycle, 5, "M r0 c0w r1 c1" },
+  { "window_burst", op_window_burst, 2, "M count" },
 };
 const int op_count = sizeof op_table / sizeof op_table[0];
 const opdesc_t *op_find(const char *name) {
